@@ -1055,6 +1055,89 @@ fn barrier_three_arrivals() {
     });
 }
 
+/// C13 / C10 (Mutex): a lock operation takes its starvation ticket (fetch_add(2)) on one thread WHILE the holder unlocks on
+/// another. Whatever the order, the ticket is in the word afterwards: while the operation is pending try_lock refuses, and
+/// once it has had the mutex and everything is dropped the word is back to 0 (try_lock succeeds).
+fn mutex_starve_vs_unlock() {
+    let mut b = loom::model::Builder::new();
+    b.preemption_bound = bound();
+    b.check(|| {
+        EXECUTIONS.fetch_add(1, std::sync::atomic::Ordering::Relaxed);
+        async_lock::verif::oracle_enable(true);
+        async_lock::verif::oracle_set(&[]);
+        let m = std::sync::Arc::new(Mutex::new(0u32));
+        let g0 = m.try_lock_arc().unwrap();
+        let mut t1 = Task::new(m.lock_arc());
+        t1.poll();
+        assert!(t1.pending());
+        drop(g0); // t1 notified
+        let g1 = m.try_lock_arc().unwrap(); // barging
+        let t = loom::thread::spawn(move || {
+            async_lock::verif::oracle_enable(true);
+            async_lock::verif::oracle_set(&[true]);
+            t1.poll(); // consumes its notification; if it loses the race the clock says starved: fetch_add(2)
+            async_lock::verif::oracle_set(&[]);
+            async_lock::verif::oracle_enable(false);
+            t1
+        });
+        drop(g1); // the unlock races with the ticket
+        let mut t1 = t.join().unwrap();
+        if t1.pending() {
+            // it lost the race, so it is starved: barging is closed although the mutex is unlocked
+            if let Some(g) = m.try_lock_arc() {
+                drop(g);
+                panic!("LOOM-VIOLATION mutex_starve_vs_unlock: try_lock succeeded on the unlocked mutex while a starved lock operation is pending: its starvation ticket was lost");
+            }
+        }
+        t1.settle();
+        if t1.pending() {
+            panic!("LOOM-VIOLATION mutex_starve_vs_unlock: lost wake-up: the mutex is free, every woken task has been polled again, the lock_arc() is pending");
+        }
+        drop(t1);
+        if m.try_lock_arc().is_none() {
+            panic!("LOOM-VIOLATION mutex_starve_vs_unlock: nothing is alive and try_lock fails: a starvation ticket was left in the word");
+        }
+        async_lock::verif::oracle_enable(false);
+    });
+}
+
+/// C10 / C06 (three threads): a reader holds; write() W1 is announced and waits; write() W2 waits on the inner mutex. W1 is
+/// cancelled on one thread, W2 is polled and then the reader leaves on another. With no guard alive and every woken task
+/// polled again W2 must have the lock: the last reader's notification must not end up on anything W1 left behind.
+fn rw_cancel_vs_writer_and_reader() {
+    let mut b = loom::model::Builder::new();
+    b.preemption_bound = bound();
+    b.check(|| {
+        EXECUTIONS.fetch_add(1, std::sync::atomic::Ordering::Relaxed);
+        let lp: *mut std::sync::Arc<RwLock<u32>> = Box::into_raw(Box::new(std::sync::Arc::new(RwLock::new(0u32))));
+        let l: &'static std::sync::Arc<RwLock<u32>> = unsafe { &*lp };
+        let r0 = l.try_read_arc().unwrap();
+        let mut w1 = Task::new(l.write_arc());
+        w1.poll();
+        assert!(w1.pending());
+        let mut w2 = Task::new(l.write_arc());
+        w2.poll();
+        assert!(w2.pending());
+        let ta = loom::thread::spawn(move || drop(w1));
+        let tb = loom::thread::spawn(move || {
+            w2.poll();
+            drop(r0);
+            w2
+        });
+        ta.join().unwrap();
+        let mut w2 = tb.join().unwrap();
+        w2.settle();
+        if w2.pending() {
+            panic!("LOOM-VIOLATION rw_cancel_vs_writer_and_reader: lost wake-up: no guard is alive, the first writer was cancelled, every woken task has been polled again, the second write() is pending");
+        }
+        drop(w2);
+        if l.try_write_arc().is_none() {
+            panic!("LOOM-VIOLATION rw_cancel_vs_writer_and_reader: everything is gone and try_write fails: something was left behind");
+        }
+        unsafe { drop(Box::from_raw(lp)); }
+    });
+}
+
 fn main() {
     let which = std::env::args().nth(1).unwrap_or_else(|| "all".to_string());
     let tests: Vec<(&str, fn())> = vec![
@@ -1073,6 +1156,8 @@ fn main() {
         ("rw_writer_announced", rw_writer_announced),
         ("mutex_starved_try", mutex_starved_try),
         ("blocking_forms", blocking_forms),
+        ("mutex_starve_vs_unlock", mutex_starve_vs_unlock),
+        ("rw_cancel_vs_writer_and_reader", rw_cancel_vs_writer_and_reader),
         ("barrier_three_arrivals", barrier_three_arrivals),
         ("sem_add_permits_race", sem_add_permits_race),
         ("rw_cancel_vs_next_writer", rw_cancel_vs_next_writer),
